@@ -360,7 +360,7 @@ func c18Store(c *Ctx) {
 }
 
 func c18Dir(c *Ctx) {
-	r := c.Rule("C18/DIR", "TABLE", "storeForDirection: Incoming→s.Incoming, Outgoing→s.Outgoing; NewMemorySession allocates two distinct stores; each MemorySession method routes through storeForDirection(its own dir)", 7)
+	r := c.Rule("C18/DIR", "TABLE", "storeForDirection: Incoming→s.Incoming, Outgoing→s.Outgoing; NewMemorySession allocates two distinct stores; each MemorySession method routes through storeForDirection(its own dir); MemorySession.NextID is exactly one Counter.NextID()", 8)
 	fi := c.mustFunc(r, "session.(*MemorySession).storeForDirection")
 	v := c.vocab()
 	if fi != nil {
@@ -393,6 +393,42 @@ func c18Dir(c *Ctx) {
 		a, aok := calls["Incoming"].(*ast.CallExpr)
 		b, bok := calls["Outgoing"].(*ast.CallExpr)
 		r.Check(ns.Name+":two distinct stores", aok && bok && a != b, ns.Decl.Pos(), 1, "Incoming and Outgoing must be separate NewPacketStore() allocations")
+	}
+	// the session's NextID is the counter's: one draw per call, handed on unchanged (a wrapper that draws again
+	// under some condition makes the sequence depend on the stores and shortens the cycle below 65535)
+	if nf := c.mustFunc(r, "session.(*MemorySession).NextID"); nf != nil {
+		draw := c.P.Method("session", "IDCounter", "NextID")
+		in := c.traces(nf)
+		h := &Interp{P: c.P, Info: nf.Pkg.TypesInfo}
+		ok, why := len(in.Traces) > 0 && draw != nil, "NextID must return s.Counter.NextID()"
+		var w *Trace
+		for _, t := range in.Traces {
+			n, last := 0, -1
+			for i, e := range t.Ev {
+				if callTo(draw)(e) {
+					n++
+					last = i
+				}
+			}
+			good := t.Exit == ExitReturn && n == 1 && len(t.Results) == 1
+			if good {
+				res := ast.Unparen(t.Results[0])
+				if res != ast.Expr(t.Ev[last].Call) {
+					// a local that holds the drawn value
+					good = false
+					for _, a := range t.Ev[last+1:] {
+						if a.Kind == EvAssign && a.LObj != nil && a.LObj == h.objOf(res) {
+							good = ast.Unparen(a.RHS) == ast.Expr(t.Ev[last].Call)
+						}
+					}
+				}
+			}
+			if !good && ok {
+				ok, w = false, t
+				why = fmt.Sprintf("a path draws %d ids from the counter or does not return the drawn id unchanged", n)
+			}
+		}
+		r.Check(nf.Name+"→Counter.NextID() once", ok, nf.Decl.Pos(), len(in.Traces), why, c.witness(w)...)
 	}
 	for _, m := range []struct{ sess, store string }{{"SavePacket", "Save"}, {"LookupPacket", "Lookup"}, {"DeletePacket", "Delete"}, {"AllPackets", "All"}} {
 		mf := c.mustFunc(r, "session.(*MemorySession)."+m.sess)
@@ -432,6 +468,7 @@ func propC19(c *Ctx) string {
 	// pooled buffer until the write returned
 	c03Ship(c)
 	c02Pool(c, "C19/POOL")
+	c03WSLimit(c)
 	c.NotDecide("that no call blocks or panics after close / error / expired timeout (carrier, mercury.Writer and gorilla behaviour)", "that concurrent packets arrive whole (follows from LOCK only given a correct packet.Stream: C03/SHIP)", "flush-delay timing")
 	c.Assume("lock keys are instance-insensitive (one BaseConn)", "net.Conn / websocket.Conn Close unblock pending reads")
 	return c19Explanation
